@@ -30,6 +30,7 @@ type txnCtx struct {
 	sel    sel  // the model's view of the transaction's selection (exact worlds)
 	first  bool // no filter call has been made yet (a leading Union intersects)
 	inited bool
+	cleared bool // a filter on a missing column truncated the selection
 }
 
 // runTxn executes one transaction program on the primary and mirrors it into the model.
@@ -178,6 +179,16 @@ func (x *txnCtx) deleteAt(off uint32) {
 	w := x.w
 	if w.avoid["put-delete"] && x.wrote(off, "") {
 		return // known finding: put and delete of one row in one transaction
+	}
+	if x.wrote(off, "") {
+		w.noteTrigger("put-delete")
+	}
+	if x.deleted(off) {
+		// known finding: two deletes of one row in one transaction are reported twice to triggers
+		if w.avoid["double-delete"] {
+			return
+		}
+		w.noteTrigger("double-delete")
 	}
 	x.initSel()
 	x.first = false
@@ -470,8 +481,11 @@ func (x *txnCtx) deleted(off uint32) bool {
 // a merge into a put, or drop the store (ok=false).
 func (x *txnCtx) avoidWrite(off uint32, col ColSpec, kind mopKind) (mopKind, bool) {
 	w := x.w
-	if w.avoid["put-delete"] && x.deleted(off) {
-		return kind, false
+	if x.deleted(off) {
+		if w.avoid["put-delete"] {
+			return kind, false
+		}
+		w.noteTrigger("put-delete")
 	}
 	if w.avoid["len-merge-put"] && (col.Merge == "concat" || col.Merge == "sum") {
 		for _, o := range x.mt.Ops {
@@ -479,10 +493,19 @@ func (x *txnCtx) avoidWrite(off uint32, col ColSpec, kind mopKind) (mopKind, boo
 				return kind, false // a store after a (possibly length-changing) merge of the same row and column
 			}
 		}
+	} else if col.Merge == "concat" || col.Merge == "sum" {
+		for _, o := range x.mt.Ops {
+			if o.Off == off && o.Col == col.Name && o.Kind == mMerge {
+				w.noteTrigger("len-merge-put")
+			}
+		}
 	}
-	if w.avoid["merge-absent"] && kind == mMerge {
+	if kind == mMerge {
 		if _, ok := w.model.Get(off, col.Name); !ok && !x.wrote(off, col.Name) {
-			return mPut, true // the row holds nothing in the column: the stale slot of a previous occupant would be merged
+			if w.avoid["merge-absent"] {
+				return mPut, true // the row holds nothing in the column: the stale slot of a previous occupant would be merged
+			}
+			w.noteTrigger("merge-absent")
 		}
 	}
 	return kind, true
